@@ -21,7 +21,7 @@ WORLD_CALLEES = [
     'FileTime :: now', 'std :: time :: SystemTime :: now', 'SystemTime :: now',
     'move_to_back_of_list', 'set_read_only', 'ensure_file_removed', 'ensure_file_touched', 'raw_cache :: ensure_file_touched',
     'collect_cached_files', 'apply_update', 'raw_cache :: prune', 'prune', 'ensure_directory', 'cleanup_temporary_directory',
-    'libc :: close', 'close', '. seek', '. rewind', '. reopen', '. sync_all', '. sync_all_or_panic', '. set_permissions', 'NamedTempFile :: new_in', '. tempfile_in', 'CacheDir :: get', 'CacheDir :: touch', 'CacheDir :: set', 'CacheDir :: put', 'CacheDir :: ensure_temp_dir', 'CacheDir :: maintain', 'CacheDir :: maybe_cleanup', 'CacheDir :: definitely_cleanup', 'CacheDir :: cleanup_temp_directory', 'finalize_tempfile', 'fix_tempfile_permissions', '. finalize_tempfile', '. maybe_sync_path', '. set_impl', '. put_impl', '. ensure_temp_dir', '. cleanup_temp_directory', '. definitely_cleanup', '. maybe_cleanup', '. maintain', '. event', '. weighted_event',
+    'libc :: close', 'close', '. seek', '. rewind', '. stream_position', '. set_len', '. reopen', '. sync_all', '. sync_all_or_panic', '. set_permissions', 'NamedTempFile :: new_in', '. tempfile_in', 'CacheDir :: get', 'CacheDir :: touch', 'CacheDir :: set', 'CacheDir :: put', 'CacheDir :: ensure_temp_dir', 'CacheDir :: maintain', 'CacheDir :: maybe_cleanup', 'CacheDir :: definitely_cleanup', 'CacheDir :: cleanup_temp_directory', 'finalize_tempfile', 'fix_tempfile_permissions', '. finalize_tempfile', '. maybe_sync_path', '. set_impl', '. put_impl', '. ensure_temp_dir', '. cleanup_temp_directory', '. definitely_cleanup', '. maybe_cleanup', '. maintain', '. event', '. weighted_event',
 ]
 
 
@@ -237,7 +237,7 @@ pub proof fn lemma_stamped_unread(ino: Inode, t: int, gran: int)
              'old(w).solo ==> (r.is_err() ==> final(w).dirs == old(w).dirs && (final(w).hard_faults > old(w).hard_faults || !old(w).files.contains_key(pv(from)) '
              '|| !old(w).dirs.contains(parent(pv(to)))))'),
             ('C01 C03 C19:publishing-never-changes-the-bytes-of-any-file', 'bytes_kept(*old(w), *final(w))'),
-            ('C10:no-directory-scan-follows-the-publication', 'final(w).published > old(w).published ==> final(w).pub_listed == final(w).listed'),
+            ('C10 C09:no-directory-scan-follows-the-publication', 'final(w).published > old(w).published ==> final(w).pub_listed == final(w).listed'),
             ('C18 C02:on-error-either-nothing-or-exactly-the-publication-happened',
              'r.is_err() ==> attempt_effect(*old(w), *final(w), pv(from), pv(to))'),
             ('C18 C02:failed-publication-leaves-entries-alone',
@@ -281,7 +281,7 @@ pub proof fn lemma_stamped_unread(ino: Inode, t: int, gran: int)
              'old(w).solo ==> (r.is_err() ==> final(w).dirs == old(w).dirs && (final(w).hard_faults > old(w).hard_faults || !old(w).files.contains_key(pv(from)) '
              '|| !old(w).dirs.contains(parent(pv(to)))))'),
             ('C01 C03 C19:publishing-never-changes-the-bytes-of-any-file', 'bytes_kept(*old(w), *final(w))'),
-            ('C10:no-directory-scan-follows-the-publication', 'final(w).published > old(w).published ==> final(w).pub_listed == final(w).listed'),
+            ('C10 C09:no-directory-scan-follows-the-publication', 'final(w).published > old(w).published ==> final(w).pub_listed == final(w).listed'),
             ('C18 C02:on-error-either-nothing-or-exactly-the-publication-happened',
              'r.is_err() ==> attempt_effect(*old(w), *final(w), pv(from), pv(to))'),
             ('C18 C02:failed-publication-leaves-entries-alone',
@@ -681,7 +681,7 @@ pub proof fn lemma_restamped_prefix(old: World, a: World, b: World, mb: Seq<Cach
     au.desugar_for(0, itvar='kw_it1', into_iter=True,
                    after_init='let ghost mut k1: int = 0;', after_next='proof { k1 = k1 + 1; } ')
     au.loop_contract(0, invariant=[
-        ('C07 C17 C16:the-scratch-path-names-the-directory-again-after-every-item', 'pbv(cached) == dir'),
+        ('C07 C17 C16 C18:the-scratch-path-names-the-directory-again-after-every-item', 'pbv(cached) == dir'),
         ('', 'old(w).inv() && w.inv() && w.kept(*old(w)) && w.cache_dirs.contains(dir) && ev == update.to_evict@ && mb == update.to_move_back@'),
         ('', '0 <= k1 <= ev.len() && vstd::std_specs::iter::IteratorSpec::remaining(&kw_it1) == ev.skip(k1) && vstd::std_specs::iter::IteratorSpec::obeys_prophetic_iter_laws(&kw_it1)'),
         ('', '(forall|n: Seq<u8>| !w.under_ro(#[trigger] child(dir, n))) && evictable_records(ev, dir) && evictable_records(mb, dir)'),
@@ -702,7 +702,7 @@ pub proof fn lemma_restamped_prefix(old: World, a: World, b: World, mb: Seq<Cach
     au.desugar_for(1, itvar='kw_it2', into_iter=True,
                    after_init='let ghost mut k2: int = 0;', after_next='proof { k2 = k2 + 1; } ')
     au.loop_contract(1, invariant=[
-        ('C07 C17 C16:the-scratch-path-names-the-directory-again-after-every-item', 'pbv(cached) == dir'),
+        ('C07 C17 C16 C18:the-scratch-path-names-the-directory-again-after-every-item', 'pbv(cached) == dir'),
         ('', 'old(w).inv() && w.inv() && w.kept(*old(w)) && w.cache_dirs.contains(dir) && ev == update.to_evict@ && mb == update.to_move_back@'),
         ('', '0 <= k2 <= mb.len() && vstd::std_specs::iter::IteratorSpec::remaining(&kw_it2) == mb.skip(k2) && vstd::std_specs::iter::IteratorSpec::obeys_prophetic_iter_laws(&kw_it2)'),
         ('', '(forall|n: Seq<u8>| !w.under_ro(#[trigger] child(dir, n))) && evictable_records(ev, dir) && evictable_records(mb, dir)'),
@@ -1201,7 +1201,7 @@ pub open spec fn write_frame(old: World, fin: World, base: PathV, name: Seq<u8>,
         '\n            requires\n                old(w).inv(),\n                dirent.dir() == pbv(*old(temp)),\n'
         '                is_temp_dir_of(*old(w), dirent.dir()),\n                single_component(dirent.name()),\n'
         '            ensures\n                final(w).inv(),\n                final(w).kept(*old(w)) && final(w).now == old(w).now && final(w).listed == old(w).listed,\n'
-        '                pbv(*final(temp)) == pbv(*old(temp)),   // @L C17 C02 C16:the-scratch-path-names-the-temp-directory-again-after-every-item\n'
+        '                pbv(*final(temp)) == pbv(*old(temp)),   // @L C17 C02 C16 C18:the-scratch-path-names-the-temp-directory-again-after-every-item\n'
         '                final(w).steps <= old(w).steps + 2 * (2) && final(w).opens == old(w).opens && final(w).published == old(w).published,\n'
         '                final(w).dirs == old(w).dirs && final(w).inodes == old(w).inodes,\n'
         '                final(w).files == old(w).files || (final(w).files == old(w).files.remove(child(dirent.dir(), dirent.name())) '
@@ -1461,7 +1461,7 @@ pub open spec fn write_frame(old: World, fin: World, base: PathV, name: Seq<u8>,
                  '!first_byte_ok(str_bytes(name)) || str_bytes(name).contains(0x2fu8) ==> r.is_err() && err_kind(err_of(r)) == ErrorKind::InvalidInput && *final(w) == *old(w)'),
                 ('C10:maintenance-precedes-the-insertion-and-runs-iff-the-trigger-fires',
                  'r.is_ok() ==> observe_step(old(w).counter, self.spec_trigger().spec_scale(), r.unwrap().is_some(), final(w).counter)'),
-                ('C10:maintenance-never-runs-after-the-write-has-published-its-file',
+                ('C10 C09:maintenance-never-runs-after-the-write-has-published-its-file',
                  'final(w).published > old(w).published ==> final(w).pub_listed == final(w).listed'),
                 ('C06 C20:constant-number-of-filesystem-calls-outside-maintenance',
                  'r.is_ok() && r.unwrap().is_none() ==> final(w).steps <= old(w).steps + 2 * (%d) && final(w).opens == old(w).opens && final(w).listed == old(w).listed' % nsteps),
